@@ -15,3 +15,11 @@ func VerifStageCheckPendingBatch(src BatchSource, cl BatchCleaner,
 	}
 	return c.checkPendingBatch()
 }
+
+// VerifC06Diverted reports whether an account subscription handshake is in
+// progress (the error channel switch is diverted to it).
+func (c *Client) VerifC06Diverted() bool {
+	c.errChanSwitch.Lock()
+	defer c.errChanSwitch.Unlock()
+	return c.errChanSwitch.diverted
+}
